@@ -67,7 +67,15 @@ Step ==
                 v9 == IF ~clean /\ ~wrongver /\ ~FaultSafe(c, ar) THEN v8 \cup {<<"C12", tid, l, IF Blocks(Ev.blocks) # <<>> /\ Blocks(Ev.blocks)[1].tp # 1 THEN "damaged_stream_without_leading_metadata_block_loaded" ELSE "damaged_stream_loaded_wrong_data">>} ELSE v8
                 v10 == IF wrongver /\ ~(Ev.err # "none" /\ LoadedSet(Ev) = {}) THEN v9 \cup {<<"C12", tid, l, IF Blocks(Ev.blocks) # <<>> /\ Blocks(Ev.blocks)[1].tp # 1 THEN "other_version_loaded_from_stream_without_leading_metadata_block" ELSE "other_version_not_refused_before_loading">>} ELSE v9
                 v11 == IF Ev.fault = "version" /\ Ev.err # "version" THEN v10 \cup {<<"C12", tid, l, "version_mismatch_not_reported">>} ELSE v10
-            IN /\ viol' = v11 /\ div' = div + (IF same THEN 0 ELSE 1) /\ nload' = nload + 1
+                \* C03 / C11 through the API: what the loaded cache serves before its first tick is a saved entry
+                \* with its saved value whose deadline had not passed when the stream was loaded
+                alive == ToSet(Alive(All(c), now))
+                srv == {<<Ev.served[i][1], Ev.served[i][2]>> : i \in DOMAIN Ev.served}
+                dead == {x \in srv : (\E y \in ToSet(All(c)) : y.k = x[1] /\ y.v = x[2]) /\ ~(\E y \in alive : y.k = x[1] /\ y.v = x[2])}
+                alien == {x \in srv : ~(\E y \in ToSet(All(c)) : y.k = x[1] /\ y.v = x[2])}
+                v12 == IF dead # {} THEN v11 \cup {<<"C03", tid, l, "entry_expired_before_the_load_served_after_it">>} ELSE v11
+                v13 == IF alien # {} THEN v12 \cup {<<"C11", tid, l, "loaded_cache_serves_value_that_was_not_saved">>} ELSE v12
+            IN /\ viol' = v13 /\ div' = div + (IF same THEN 0 ELSE 1) /\ nload' = nload + 1
                /\ UNCHANGED <<tid, sv, nbyte, nseg>>
        [] Ev.ev = "byteload" ->
             LET ar == [err |-> Ev.err, win |-> Ents(Ev.win), pt |-> Ents(Ev.pt), pb |-> Ents(Ev.pb),
@@ -78,6 +86,11 @@ Step ==
                 v3 == IF Ev.fault = "bytetrunc" /\ Ev.err = "none" THEN v2 \cup {<<"C12", tid, l, "truncated_stream_loaded_without_error">>} ELSE v2
                 v4 == IF Ev.ver # 7 /\ ~(Ev.err # "none" /\ LoadedSet(Ev) = {}) THEN v3 \cup {<<"C12", tid, l, "other_version_not_refused_before_loading">>} ELSE v3
             IN /\ viol' = v4 /\ nbyte' = nbyte + 1 /\ UNCHANGED <<tid, sv, div, nload, nseg>>
+       [] Ev.ev = "reclaim" ->
+            \* C04 for restored entries: two ticks (1.1 s and 2.2 s after the earliest restored deadline) must have
+            \* reclaimed everything that was due 2.1 s before the second one
+            /\ viol' = IF Ev.overdue > 0 THEN V("C04", "restored_entry_not_reclaimed_two_ticks_after_its_deadline") ELSE viol
+            /\ UNCHANGED <<tid, sv, div, nload, nbyte, nseg>>
        [] OTHER -> UNCHANGED <<tid, sv, viol, div, nload, nbyte, nseg>>
 
 Finish ==
